@@ -83,7 +83,14 @@ Definition hstep (s : st) (e : list N) : option (st * list N) :=
         write of the value since the last broadcast was followed by a broadcast
      5  a channel handed out earlier is still open after a later broadcast
      6  a channel observed closed is observed open later
-     7  a channel is closed although no broadcast happened since it was handed out *)
+     7  a channel is closed although no broadcast happened since it was handed out
+     8  the critical section of a Wait call ran in this step (event [3; i] for a Wait actor last observed parked at
+        its HoldLock gate; no other event evaluates a predicate: a new Wait call parks at the gate before its first
+        evaluation, a woken one parks there again), its predicate returns an error e on the observed guarded value,
+        and the call is not observed as "returned error e" (10+e) right after the step - whatever else is true of the
+        call, in particular whether or not its context has been cancelled while it was parked
+     9  the same with a predicate that returns true, and the call is observed blocked (the property text allows nil, and
+        context.Canceled for a cancelled context - clauses 1 to 3 judge those -, but not to stay blocked) *)
 Record mactor := { mkd : akind; mcanc : bool; mlast : N }.
 Record mst := { mas : list mactor; md : bool; mexp : list bool; mflags : list N }.
 Definition minit : mst := {| mas := []; md := false; mexp := []; mflags := [] |}.
@@ -154,6 +161,28 @@ Definition bad4 (g : N) (p : mactor * N) : bool :=
 Definition bad5 (p : bool * N) : bool := let (ex, f) := p in ex && N.eqb f 0.
 Definition bad7 (p : bool * N) : bool := let (ex, f) := p in negb ex && negb (N.eqb f 0).
 Definition bad6 (p : N * N) : bool := let (f0, f1) := p in N.eqb f0 1 && negb (N.eqb f1 1).
+(* 5. the predicate evaluation of this step: (Wait actor, what its predicate returns on the observed guarded value) *)
+Definition mon_eval (mas1 : list mactor) (e : list N) (g : N) : option (nat * pres) :=
+  match e with
+  | [3; i] => match nth_error mas1 (N.to_nat i) with
+              | Some x => match m_wait x with
+                          | Some (pk, k) => if N.eqb (mlast x) 1 then Some (N.to_nat i, evalp pk k g) else None
+                          | None => None
+                          end
+              | None => None
+              end
+  | _ => None
+  end%N.
+Definition bad8 (ev : option (nat * pres)) (sts : list N) : bool :=
+  match ev with
+  | Some (i, PErr e) => match nth_error sts i with Some st => negb (N.eqb st (10 + e)) | None => false end
+  | _ => false
+  end.
+Definition bad9 (ev : option (nat * pres)) (sts : list N) : bool :=
+  match ev with
+  | Some (i, PTrue) => match nth_error sts i with Some st => N.eqb st 2 | None => false end
+  | _ => false
+  end.
 Definition setlast (p : mactor * N) : mactor := let (x, st) := p in {| mkd := mkd x; mcanc := mcanc x; mlast := st |}.
 
 Definition mon (m : mst) (e o : list N) : mst * list (nat * nat) :=
@@ -172,7 +201,9 @@ Definition mon (m : mst) (e o : list N) : mst * list (nat * nat) :=
      (if negb (fst de) && existsb (bad4 g) pairs then [(3, 4)] else []) ++
      (if existsb bad5 ef then [(3, 5)] else []) ++
      (if existsb bad6 (combine (mflags m) flags) then [(3, 6)] else []) ++
-     (if existsb bad7 ef then [(3, 7)] else []))
+     (if existsb bad7 ef then [(3, 7)] else []) ++
+     (if bad8 (mon_eval mas1 e g) sts then [(3, 8)] else []) ++
+     (if bad9 (mon_eval mas1 e g) sts then [(3, 9)] else []))
   | _ => ({| mas := mas1; md := md m; mexp := mexp m; mflags := mflags m |}, [])
   end.
 
